@@ -74,12 +74,20 @@ def run_case(case):
         oq = None
         bad.append({"why": "output_qubits raised", "exc": "%s: %s" % (H.exc_name(e), str(e)[:60])})
     if iq is not None:
-        want_iq = [qc.qubit_map.get(b) for b in names]
+        # an argument that the body assigns to again shares its name with the later value: the name then maps to the new
+        # qubit, so only the other bits are compared by name (the functional part below decides for all of them)
+        reassigned = {str(sy) for sy, _ in qf.expressions} & set(names)
+        want_iq = [qc.qubit_map.get(b) if b not in reassigned else q for b, q in zip(names, iq)] if len(iq) == len(names) else None
+        if len(set(iq)) != len(iq):
+            bad.append({"why": "input_qubits lists a qubit twice", "got": iq})
         if iq != want_iq:
             bad.append({"why": "input_qubits are not the qubits of the argument bits in order", "got": iq, "want": want_iq})
     env, M = sim.boolev_list(qf.expressions, names, lenient=True)
     retbits = qf.returns.bitvec
     if any(b not in env for b in retbits):
+        if bad:  # the qubit lists themselves could not be produced: that is this property, whatever the expressions define
+            return {"status": "violation", "rows": 0, "nontrivial": True, "outcome": "structural", "detail": {"bad": bad[:3]},
+                    "digest": H.h12([b["why"] for b in bad])}
         return {"status": "unjudged", "rows": 0, "nontrivial": False, "outcome": "unjudged-open"}
     rows = 1 << n
     if oq is not None:
